@@ -66,6 +66,42 @@ type params struct {
 	// and a foreign connection's request is parsed into it): whatever the middleware or its lock still keeps for the
 	// requests that are in flight must not alias the buffers of a request that has been answered.
 	Conns [][]reqSpec
+	// PerKey: the handler's answer depends on the idempotency key of the request: WHICH headers it carries (a header
+	// only key A's answer has, another only key B's answer has), the values of a header both carry, status, cookie
+	// and content type (see shapeFor). Whatever the middleware carries over from recording one key into the record
+	// of another key (a reused record, a map that is not cleared) then shows in the other key's replays.
+	PerKey bool
+	// Late: requests served one after the other AFTER the concurrent phase (replay scenarios): duplicates of keys
+	// recorded in the warm phase or first executed during the concurrent phase; judged like the concurrent replays.
+	Late []reqSpec
+}
+
+// keyShape: what the handler answers for a key
+type keyShape struct {
+	Status int
+	XA     []string
+	Only   [2]string // a header no other key's answer carries ("" = none)
+	Cookie bool
+	CT     string // "" = fiber's default
+}
+
+func shapeFor(p params, key string) keyShape {
+	sh := keyShape{Status: 201, XA: []string{"one", "two"}, Cookie: true}
+	if !p.PerKey {
+		return sh
+	}
+	switch key {
+	case keyA:
+		sh.Only = [2]string{"X-Only-A", "from-a"}
+	case keyB:
+		sh = keyShape{Status: 202, XA: []string{"bee"}, Only: [2]string{"X-Only-B", "from-b"}, CT: "application/json"}
+	}
+	return sh
+}
+
+// framing header lines are not part of the answer
+func framing(name string) bool {
+	return name == "Transfer-Encoding" || name == "Content-Length" || name == "Connection"
 }
 
 // withConns sets the connections of a scenario (and Reqs, their concatenation, which the oracle walks).
@@ -146,6 +182,7 @@ type respObs struct {
 	XA      []string
 	Cookie  []string
 	CT      string
+	Hdr     []string // every header line "Name: value" except message framing, sorted
 	Ran     int
 	Panic   string
 	Faulted []string
@@ -168,6 +205,7 @@ func runScenario(p params) func(e *schedx.Exec) *schedx.Outcome {
 		if p.Sequential2 {
 			n++
 		}
+		n += len(p.Late)
 		obs := make([]respObs, n)
 		inflight := make([]bool, n) // request handed to the app and not yet answered
 		warmObs := map[string]respObs{}
@@ -208,10 +246,20 @@ func runScenario(p params) func(e *schedx.Exec) *schedx.Outcome {
 				hs.ranFor[rid]++
 				k := hs.started[ckey]
 				verifrt.YieldOn("handler.work", hs)
-				c.Status(201)
-				c.Response().Header.Add("X-A", "one")
-				c.Response().Header.Add("X-A", "two")
-				c.Cookie(&fiber.Cookie{Name: "sid", Value: fmt.Sprintf("v%d", k)})
+				sh := shapeFor(p, key)
+				c.Status(sh.Status)
+				for _, v := range sh.XA {
+					c.Response().Header.Add("X-A", v)
+				}
+				if sh.Only[0] != "" {
+					c.Set(sh.Only[0], sh.Only[1])
+				}
+				if sh.Cookie {
+					c.Cookie(&fiber.Cookie{Name: "sid", Value: fmt.Sprintf("v%d", k)})
+				}
+				if sh.CT != "" {
+					c.Set(fiber.HeaderContentType, sh.CT)
+				}
 				if p.FailFirst && ckey == keyA && k == 1 {
 					return fiber.NewError(503, "boom")
 				}
@@ -250,6 +298,12 @@ func runScenario(p params) func(e *schedx.Exec) *schedx.Outcome {
 				for _, v := range fctx.Response.Header.PeekAll("Set-Cookie") {
 					o.Cookie = append(o.Cookie, string(v))
 				}
+				fctx.Response.Header.VisitAll(func(k, v []byte) {
+					if !framing(string(k)) {
+						o.Hdr = append(o.Hdr, string(k)+": "+string(v))
+					}
+				})
+				sort.Strings(o.Hdr)
 				me := "@" + verifrt.CurrentName()
 				for _, f := range faultLog[mark:] {
 					if strings.HasSuffix(f, me) {
@@ -309,6 +363,11 @@ func runScenario(p params) func(e *schedx.Exec) *schedx.Outcome {
 				do(len(p.Reqs), reqSpec{ID: "late", Method: "POST", Key: keyA}, fctx)
 				recycle(fctx)
 			}
+			for j, rs := range p.Late {
+				fctx := &fasthttp.RequestCtx{}
+				do(n-len(p.Late)+j, rs, fctx)
+				recycle(fctx)
+			}
 			lockedKeysAtEnd = mlock.VerifLockedKeys()
 		})
 		e.Res = res
@@ -346,44 +405,124 @@ func runScenario(p params) func(e *schedx.Exec) *schedx.Outcome {
 			// replay oracle: a request whose key was recorded in the warm phase gets exactly the recorded answer and
 			// does not run the handler; a request with a fresh key runs it once
 			for k, w := range warmObs {
-				if w.Status != 201 || w.Ran != 1 {
+				if w.Status != shapeFor(p, k).Status || w.Ran != 1 {
 					viol("warm-request-not-executed", "a first request with a key did not run the handler once", w, k)
 				}
 			}
-			for i, rs := range p.Reqs {
-				o := obs[i]
-				w, recorded := warmObs[rs.Key]
-				if !recorded || rs.Method != "POST" || rs.Key == "" {
-					if o.Ran != 1 || o.Status != 201 || (!p.EmptyBody && o.Body != fmt.Sprintf("exec#%d of %s", hs.started[rs.Key], firstChar(rs.Key)) && o.Body != fmt.Sprintf("exec#1 of %s", firstChar(rs.Key))) {
-						viol("bystander-affected kind="+bystanderKind(rs)+" phase=replay", "a request with a fresh key / without key / with a safe method must run its handler exactly once and get its own answer", o, "ran=1 status=201")
+			keepSet := map[string]bool{}
+			for _, h := range p.Keep {
+				keepSet[strings.ToLower(h)] = true
+			}
+			// kept header lines of an answer, by header name
+			kept := func(o respObs) map[string][]string {
+				m := map[string][]string{}
+				for _, l := range o.Hdr {
+					name := l
+					if i := strings.Index(l, ": "); i >= 0 {
+						name = l[:i]
 					}
-					continue
+					if p.Keep != nil && !keepSet[strings.ToLower(name)] {
+						continue // not a kept header: the statement is silent
+					}
+					m[name] = append(m[name], l)
+				}
+				return m
+			}
+			// recorded: the execution every later request with the key must be answered like (warm phase; for the Late
+			// requests also the first executions of the concurrent phase)
+			recorded := map[string]respObs{}
+			for k, w := range warmObs {
+				recorded[k] = w
+			}
+			judge := func(rs reqSpec, o respObs) {
+				w, isRec := recorded[rs.Key]
+				if !isRec || rs.Method != "POST" || rs.Key == "" {
+					if o.Ran != 1 || o.Status != shapeFor(p, rs.Key).Status || (!p.EmptyBody && o.Body != fmt.Sprintf("exec#%d of %s", hs.started[rs.Key], firstChar(rs.Key)) && o.Body != fmt.Sprintf("exec#1 of %s", firstChar(rs.Key))) {
+						viol("bystander-affected kind="+bystanderKind(rs)+" phase=replay", "a request with a fresh key / without key / with a safe method must run its handler exactly once and get its own answer", o, fmt.Sprintf("ran=1 status=%d", shapeFor(p, rs.Key).Status))
+					}
+					return
 				}
 				if o.Ran != 0 {
 					viol("replay-ran-handler", "a request with a recorded key ran the handler again", o, w)
 				}
 				diff := ""
+				var excess []string // header lines of the answer that the recorded execution did not produce
 				switch {
 				case o.Status != w.Status:
 					diff = "status"
 				case o.Body != w.Body:
 					diff = "body"
-				case !sameMulti(o.XA, w.XA):
+				case (p.Keep == nil || keepSet["x-a"]) && !sameMulti(o.XA, w.XA):
 					diff = "header:X-A"
 				case p.Keep == nil && !sameMulti(o.Cookie, w.Cookie):
 					diff = "header:Set-Cookie"
 				case p.Keep == nil && o.CT != w.CT:
 					diff = "content-type"
+				default:
+					// every kept header (all of them when KeepResponseHeaders is unset): same names, same values
+					a, b := kept(o), kept(w)
+					var names []string
+					for n := range a {
+						names = append(names, n)
+					}
+					for n := range b {
+						if _, dup := a[n]; !dup {
+							names = append(names, n)
+						}
+					}
+					sort.Strings(names)
+					for _, n := range names {
+						if !sameMulti(a[n], b[n]) {
+							diff = "header:" + n
+							if len(b[n]) == 0 {
+								diff += " not-in-execution"
+							} else if len(a[n]) == 0 {
+								diff += " missing"
+							}
+							have := map[string]int{}
+							for _, l := range b[n] {
+								have[l]++
+							}
+							for _, l := range a[n] {
+								if have[l] == 0 {
+									excess = append(excess, l)
+								}
+								have[l]--
+							}
+							break
+						}
+					}
 				}
 				if diff != "" {
 					other := "none"
-					for _, x := range warmObs {
-						if x.ID != w.ID && diff == "body" && o.Body == x.Body {
+					for k, x := range recorded {
+						if k == rs.Key {
+							continue
+						}
+						if diff == "body" && o.Body == x.Body {
 							other = "another-key's-answer"
+						}
+						for _, l := range excess {
+							for _, xl := range x.Hdr {
+								if l == xl {
+									other = "another-key's-header"
+								}
+							}
 						}
 					}
 					viol("replay-answer-differs field="+diff+" got="+other, "a request with a recorded key was answered differently from the recorded execution", o, w)
 				}
+			}
+			for i, rs := range p.Reqs {
+				judge(rs, obs[i])
+			}
+			for i, rs := range p.Reqs {
+				if _, isRec := recorded[rs.Key]; !isRec && rs.Method == "POST" && rs.Key != "" && obs[i].Ran == 1 && obs[i].Status == shapeFor(p, rs.Key).Status {
+					recorded[rs.Key] = obs[i] // first execution during the concurrent phase
+				}
+			}
+			for j, rs := range p.Late {
+				judge(rs, obs[n-len(p.Late)+j])
 			}
 		}
 		if !warmPhase && len(res.Panics) == 0 && !res.Deadlock && !res.Horizon {
@@ -464,7 +603,7 @@ func runScenario(p params) func(e *schedx.Exec) *schedx.Outcome {
 				if len(o.Faulted) > 0 {
 					continue
 				}
-				if o.Ran != 1 || o.Status != 201 {
+				if o.Ran != 1 || o.Status != shapeFor(p, rs.Key).Status {
 					viol("bystander-affected kind="+bystanderKind(rs), "a request with another key / without key / with a safe method must run its handler exactly once", o, "ran=1 status=201")
 				}
 				want := fmt.Sprintf("exec#%d of %s", 1, firstChar(rs.Key))
@@ -580,6 +719,30 @@ func main() {
 		mk("replay-a-b-a-keep", params{Warm: warmAB, Outer: true, Reqs: []reqSpec{rp("repA1", keyA), rp("repB", keyB), rp("repA2", keyA)}, Storage: "injected", Locker: "default", Keep: []string{"X-A"}},
 			xplore.Bounds{0, 2, 0, 0}, xplore.Bounds{0, 3, 0, 0}, false),
 		mk("replay-a-first-b", params{Warm: warmAB[:1], Outer: true, Reqs: []reqSpec{rp("repA", keyA), rp("firstB", keyB), {ID: "nokey", Method: "POST"}}, Storage: "injected", Locker: "default"},
+			xplore.Bounds{0, 2, 0, 0}, xplore.Bounds{0, 3, 0, 0}, false),
+	)
+	// answers that differ by key (PerKey: which headers, their values, status, cookie, content type) x
+	// KeepResponseHeaders unset / one name / several names x order of recording x storage x fresh / shared RequestCtx:
+	// every replay equals the recorded execution of ITS key (nothing of the other key's record shows up in it), for the
+	// concurrent replays and for later ones (Late), also of a key first executed while replays were in flight
+	warmBA := []reqSpec{warmAB[1], warmAB[0]}
+	keepMany := []string{"x-a", "X-Only-A", "X-Only-B", "Content-Type", "Set-Cookie"}
+	repAB := []reqSpec{rp("repA", keyA), rp("repB", keyB)}
+	lateBA := []reqSpec{rp("lateB", keyB), rp("lateA", keyA)}
+	scenarios = append(scenarios,
+		mk("replay-perkey-a-b", params{Warm: warmAB, Outer: true, PerKey: true, Reqs: repAB, Late: lateBA, Storage: "injected", Locker: "default"},
+			xplore.Bounds{0, 2, 0, 0}, xplore.Bounds{0, -1, 0, 0}, true),
+		mk("replay-perkey-a-b-keep1", params{Warm: warmAB, Outer: true, PerKey: true, Reqs: repAB, Late: lateBA, Storage: "injected", Locker: "default", Keep: []string{"X-Only-A"}},
+			xplore.Bounds{0, 2, 0, 0}, xplore.Bounds{0, -1, 0, 0}, true),
+		mk("replay-perkey-b-a-keep1-shared-ctx", params{Warm: warmBA, Outer: true, PerKey: true, SharedCtx: true, Reqs: repAB, Late: lateBA, Storage: "injected", Locker: "default", Keep: []string{"x-only-b"}},
+			xplore.Bounds{0, 2, 0, 0}, xplore.Bounds{0, -1, 0, 0}, true),
+		mk("replay-perkey-a-b-keepmany", params{Warm: warmAB, Outer: true, PerKey: true, Reqs: repAB, Late: lateBA, Storage: "injected", Locker: "default", Keep: keepMany},
+			xplore.Bounds{0, 2, 0, 0}, xplore.Bounds{0, -1, 0, 0}, true),
+		mk("replay-perkey-b-a-keepmany-memory", params{Warm: warmBA, Outer: true, PerKey: true, Reqs: repAB, Late: lateBA, Storage: "memory", Locker: "default", Keep: keepMany},
+			xplore.Bounds{0, 2, 0, 0}, xplore.Bounds{0, -1, 0, 0}, true),
+		mk("replay-perkey-a-first-b-keepmany", params{Warm: warmAB[:1], Outer: true, PerKey: true, Reqs: []reqSpec{rp("repA", keyA), rp("firstB", keyB)}, Late: lateBA, Storage: "injected", Locker: "default", Keep: keepMany},
+			xplore.Bounds{0, 2, 0, 0}, xplore.Bounds{0, 3, 0, 0}, false),
+		mk("replay-perkey-b-first-a", params{Warm: warmBA[:1], Outer: true, PerKey: true, Reqs: []reqSpec{rp("repB", keyB), rp("firstA", keyA)}, Late: lateBA, Storage: "injected", Locker: "default"},
 			xplore.Bounds{0, 2, 0, 0}, xplore.Bounds{0, 3, 0, 0}, false),
 	)
 	// the recorded keys have expired and the built-in storage's janitor sweeps while duplicates of one of them arrive
